@@ -19,6 +19,7 @@ import GT.Lemmas.RepAutPairs
 import GT.Lemmas.RepAutLang
 import GT.Lemmas.RepAutFree
 import GT.Lemmas.RepAutTotal
+import GT.Lemmas.RepAutGuard
 
 namespace GT.RepW
 namespace RepAutExamples
@@ -56,6 +57,31 @@ example : ∃ res memo', r0.accepted a0 2 {} (some 0) [] = .ok (res, memo') ∧
       decide
     rw [h] at this
     exact Option.some.inj this
+
+/-- the exception a result carries, if any -/
+def errOf {α : Type} : M? α → Option Err
+  | .error e => some e
+  | .ok _ => none
+
+/-- `r0` with `parse_simple=False`: words are joined with `"*"` -/
+def r0ns : Rep 2 ℤ := { r0 with parseSimple := false }
+
+example : ((r0ns.accepted a0 2 { withWords := true } (some 0) []).toOption.map (·.1.words)) =
+    some ["", "a", "a*a", "a*b"] := by decide
+example : ((r0ns.accepted a0 2 { withWords := true, asStart := false } (some 0) []).toOption.map
+    (·.1.words)) = some ["", "a*b"] := by decide
+
+/-! the guard of a caller-supplied dict: a dict filled by a `maxlen=True` call records its
+options; the same call with `maxlen=False` on that dict is refused, the same options are served -/
+example :
+    let d := (r0.automatonAcceptedD a0 2 true true (some 0) none {} true).2
+    d.options = some (true, true, true, true) ∧ d.memo.length = 2 ∧
+    errOf (r0.automatonAcceptedD a0 2 false true (some 0) none d true).1 = some "ValueError" ∧
+    ((r0.automatonAcceptedD a0 1 true true (some 1) none d true).1.toOption.map (·.words)) =
+      some ["", "a", "b"] := by
+  decide
+example : GuardOK r0 a0 (r0.automatonAcceptedD a0 2 true true (some 0) none {} true).2 :=
+  (precomputed_guard_sound r0 a0 2 true true (some 0) none {} true (guard_empty _ _)).1
 
 /-- why `MemoOK` is a hypothesis: the dict key is `(length, state)` only, so a dict filled by
 a `maxlen=True` call and then passed to a `maxlen=False` call makes the latter return the
